@@ -187,6 +187,8 @@ class LoopParser(SubParser):
         if not self.current_token.is_a(TokenTypes.NAME):
             return self.token_error('Expected name for lights, got "{}"')
         self._light_var = str(self.current_token)
+        if not self.parser.assignable(self._light_var):
+            return False
         context_stack.add_variable(self._light_var)
         return self.next_token()
 
@@ -194,6 +196,8 @@ class LoopParser(SubParser):
         if not self.current_token.is_a(TokenTypes.NAME):
             return self.token_error('Not a variable name: "{}"')
         self._index_var = str(self.current_token)
+        if not self.parser.assignable(self._index_var):
+            return False
         return self.next_token()
 
     def _index_var_range(self, code_gen) -> bool:
